@@ -1,7 +1,7 @@
 """Scenarios for C02 (JSON-RPC ledger under every message shape) and C06 (no crash on any input)."""
 import json
 
-from . import hostile, wire
+from . import hostile, model, wire
 from .engine import AUTO
 from .runner import scenario, sim_case
 from .workloads import Bus, batch_policy, pick_chunks
@@ -106,6 +106,16 @@ def rpc(case, res):
     sim_case(case, res, body)
 
 
+_LB = {}
+
+
+def _last_bucket_paths(order, n=3, prefix="e"):
+    k = (order, n, prefix)
+    if k not in _LB:
+        _LB[k] = model.colliding_paths(order, n, prefix=prefix, bucket=(1 << order) - 1)
+    return _LB[k]
+
+
 class Witness:
     """two healthy connections running a fixed dialogue in their own namespace w/..."""
 
@@ -116,6 +126,11 @@ class Witness:
         S.handshake(self.w2)
         S.request(self.w1, "add", {"path": "w/1", "value": S.next_val(self.w1)})
         S.request(self.w1, "add", {"path": "w/m"})
+        # two states whose home bucket is the LAST one of the path index (the second lives behind the wrap-around)
+        eo = int(S.cfg.get("CONFIG_ELEMENT_TABLE_ORDER", 13))
+        self.wrap = _last_bucket_paths(eo, 2, "w/e")
+        for pth in self.wrap:
+            S.request(self.w1, "add", {"path": pth, "value": S.next_val(self.w1)})
         S.request(self.w2, "fetch", {"id": "wf", "path": {"startsWith": "w/"}})
         S.request(self.w1, "fetch", {"id": "wg", "path": {"startsWith": "w/", "endsWith": "1"}})
         self.n = 0
@@ -126,7 +141,9 @@ class Witness:
         r = rng.random()
         if self.w1.closed or self.w2.closed:
             return
-        if r < 0.3:
+        if r < 0.1:
+            S.request(self.w1, "change", {"path": rng.choice(self.wrap), "value": S.next_val(self.w1)}, chunks=pick_chunks(rng))
+        elif r < 0.3:
             S.request(self.w1, "change", {"path": "w/1", "value": S.next_val(self.w1)}, chunks=pick_chunks(rng))
         elif r < 0.5:
             S.request(self.w2, "get", {"path": {"startsWith": "w/"}}, chunks=pick_chunks(rng))
@@ -164,6 +181,9 @@ def hostile_scn(case, res):
         W = Witness(S, rng)
         S.settle()
         paths = ["a", "a/b", "h/1", "h/2", "A/B", "ü", "x" * 60]
+        # paths that share the LAST bucket of the path index: their neighbourhood wraps around the end of the table
+        eo = int(S.cfg.get("CONFIG_ELEMENT_TABLE_ORDER", 13))
+        paths += _last_bucket_paths(eo)
         hs = {}
         scr = prm.get("scribble")
         if scr is None:
